@@ -16,7 +16,10 @@
    The carrier [V] of float64 values and its operations are a parameter ([Stats.vops]). *)
 From Coq Require Import String.
 From Coq Require Import List ZArith.
-From GS Require Import Base.Bytes Model.GoPartial Model.Histogram Model.Stats.
+From GS Require Import Base.Bytes.
+From GS Require Import Model.GoPartial.
+From GS Require Import Model.Histogram.
+From GS Require Import Model.Stats.
 Import ListNotations.
 Local Open Scope Z_scope.
 
